@@ -49,10 +49,13 @@ static PORTS: Mutex<Option<HashSet<u16>>> = Mutex::new(None);
 
 /// a port that was free a moment ago and that this process has not handed out before
 pub fn free_port() -> Result<u16, String> {
+    // listeners on ports that were handed out before are kept open until a fresh one is found: the kernel
+    // likes to hand the same free port out again and again
+    let mut held = vec![];
     for _ in 0..500 {
         let l = TcpListener::bind(("127.0.0.1", 0)).map_err(|e| e.to_string())?;
         let p = l.local_addr().map_err(|e| e.to_string())?.port();
-        drop(l);
+        held.push(l);
         let mut g = PORTS.lock().map_err(|e| e.to_string())?;
         let set = g.get_or_insert_with(HashSet::new);
         // ports handed out long ago belong to servers that are gone: forget them before the ephemeral range
